@@ -198,6 +198,9 @@ def tg_term(T, c):
         lib_dec(T, c['vinto'], False), lib_dec(T, c['vfresh'], False), lib_dec(T, c['ginto'], True), T.hx(c['gleft']),
         lib_dec(T, c['gfresh'], True), got)
 
+def ji_term(T, c):
+    return '(JiC (%s)%%Z %s %s %s)' % (c['z'], T.hx(c['enc']), T.hx(c['in']), ('(Some (%s)%%Z)' % c['dec']) if c['dec_ok'] else 'None')
+
 FAMILIES = {
     # key: (case type, term builder, [(result name, Gallina function, role)], chunk size, what)
     'eq':  ('eq_case', eq_term, [('mis', 'eq_mismatches', 'm'), ('vio', 'eq_violations', 'v'), ('pin', 'eq_pinned_diffs', 'i')], 400,
@@ -223,6 +226,7 @@ FAMILIES = {
     'cc':  ('cc_case', cc_term, [('mis', 'cc_mismatches', 'm')], 250, 'Marshal with one of ProtoMarshaler / ProtobufMarshaler(fallback on/off), Unmarshal with another'),
     'tg':  ('tg_case', tg_term, [('mis', 'tg_mismatches', 'm'), ('vio', 'tg_violations', 'v'), ('law', 'tg_law_failures', 'l')], 200,
             'CQRS marshaler Unmarshal into a reused / pre-filled target, and on payloads that are not the output of Marshal'),
+    'ji':  ('ji_case', ji_term, [('mis', 'ji_mismatches', 'm')], 400, 'Gallina enc_int / dec_int against json.Marshal(int64) / json.Unmarshal(text, &int64)'),
     'u8':  ('u8_case', u8_term, [('mis', 'u8_mismatches', 'm')], 2000, 'utf8_valid (Gallina) against utf8.Valid (Go): boundary sweep + mutated strings'),
 }
 
@@ -339,7 +343,7 @@ def run_once(ctx, res, seed, scale, big, tag):
                 if c.get('msg'): res.nontrivial.add(('rp', c['type'], c['res'], c['errtext']))
             elif fam == 'tg':
                 if c['step'] > 0 or c['prev'] != c.get('vfresh', {}).get('b'): res.nontrivial.add(('tg', c['kind'], c['prev'], c['payload']))
-            elif fam in ('unw', 'ru', 'nfm', 'u8', 'js', 'b64', 'jw', 'ctx', 'cc'):
+            elif fam in ('unw', 'ru', 'nfm', 'u8', 'js', 'b64', 'jw', 'ctx', 'cc', 'ji'):
                 res.nontrivial.add((fam, json.dumps(c, sort_keys=True)))
     if not res.samples:
         res.sample(dict(family='eq', case=unhex_deep(data['eq'][0])))
